@@ -454,9 +454,9 @@ impl Check for C01 {
     }
 
     fn units(&self, tier: Tier) -> Vec<Value> {
-        let mut u = vec![json!({"kind":"signatures"})];
+        let mut u = vec![json!({"kind":"signatures","on_death":"verifier-aborts-process"})];
         for part in 0..16 {
-            u.push(json!({"kind":"verifier","part":part,"parts":16}));
+            u.push(json!({"kind":"verifier","part":part,"parts":16,"on_death":"verifier-aborts-process"}));
         }
         for role in ["dials", "dialed", "dialed_pinned_x", "dialed_pinned_y", "dialed_pinned_y_then_x", "dialed_pinned_y_disconnect_then_x", "dialed_then_pinned_x"] {
             for ident in IDENTITIES {
